@@ -80,7 +80,10 @@ def run(R):
               "of the common domain lies between two filter grid points; the sources are single-point lines placed where the filters are locally constant, so the capture matrix is "
               "exactly the intended one (checked), while the standard deviations vary freely: the estimator's default variance model must then be the capture, on the common domain "
               "(C19), of the squared linearly-interpolated registered standard deviation by the squared source (exact arithmetic; the Lean models equalize + capture must give the same "
-              "matrix exactly), entry by entry to 1e-10 relative. With and without an L1 request. Two thirds of the systems get one more call at the end of the history: all targets "
+              "matrix exactly), entry by entry to 1e-10 relative. With and without an L1 request. Half of the systems get one more call with an L1 request that provably CANNOT be met "
+              "(beyond sum(ub) / below sum(lb) / exactly determined system: within the bounds but farther from the total the in-gamut target dictates than the fit tolerance allows), alone (float or array) "
+              "or in one call with an attainable request for a second row (array or list, batch_size 1/2/'full'): the call may refuse (raise; registered state unchanged), but whatever it RETURNS must be "
+              "in bounds with every row's total inside its L1 window. Two thirds of the systems get one more call at the end of the history: all targets "
               "(plus possibly a third one) in ONE call with batch_size 2, 3 or 'full' (batches that divide the rows, a padded last batch, a batch larger than the row count; "
               "in- and out-of-gamut rows share a batch; one l2_eps, L1 none or one request per row; Fortran/strided target arrays) -- every row of the answer is judged like a single call. For every row: the attainable error is the "
               "exact bounded-LS optimum (Lean-verified KKT); dreye's answer must stay within l2_eps of it, inside the L1 window, "
@@ -187,7 +190,8 @@ def run(R):
         btargets = (targets + {"none": [], "inside": ["inside"], "outside": ["outside"]}[str(brng.choice(["none", "inside", "outside"]))]) if batched else []
         border = [int(j) for j in brng.permutation(len(btargets))]      # row j of the batch is target border[j]
         bkeys = ["s%d_b%d" % (si, j) for j in range(len(btargets))]
-        if not any(R.want(k) for k in keys + bkeys):
+        ukey = "s%d_u" % si
+        if not any(R.want(k) for k in keys + bkeys + [ukey]):
             continue
         # ONE estimator (and one caller-held variance array) per system: the targets are fitted one after the other on it,
         # as a user's session would; the property has to hold for every call of such a history, not only for the first
@@ -277,6 +281,72 @@ def run(R):
             if not R.want(k):
                 continue
             add_job(c, st, out, b)
+        # ---- a total-intensity request that CANNOT be met (half of the systems, own random stream): one more call on the same estimator /
+        # arrays with an L1 request that no in-bound intensities of the required fit quality reach - beyond the bounds (L1 > sum(ub) + l1_eps),
+        # below them (L1 < sum(lb) - l1_eps, positive lower bounds) or, for exactly determined systems, within the bounds but farther from the
+        # total the in-gamut target dictates than the fit tolerance allows (|sum x - sum x_t| <= sqrt(n) (l2_eps + attainable error) / sigma_min(W A'),
+        # granted four times over). Alone, or in one call with an attainable request for another row (batch_size 1, 2 or 'full'). The property speaks
+        # about what is RETURNED: a refusal (any raised error: loud) is fine and leaves the registered state unchanged (frame condition of `call`);
+        # returned intensities must be in bounds and have, row by row, the requested total within l1_eps.
+        urq = R.rng(6, si)
+        if bool(urq.integers(2)) and R.want(ukey):
+            xt0, b0 = rows_of[0]
+            sl, su, sx = float(np.sum(lb)), float(np.sum(ub)), float(np.sum(xt0))
+            l2u = float(urq.choice([1e-4, 1e-3, 1e-2]))
+            ukind = str(urq.choice(["beyond the bounds", "below the bounds", "within the bounds"]))
+            Lbad = None
+            if ukind == "within the bounds" and ns == nf:
+                smin = float(np.linalg.svd(wv[:, None] * Ap, compute_uv=False)[-1])
+                d_ = l1eps + 4 * np.sqrt(ns) * (l2u + 1e-3) / smin + 0.0625
+                cands = [v for v in (sx + d_, sx - d_) if sl + 0.0625 < v < su - 0.0625]
+                if cands:
+                    Lbad = float(cands[int(urq.integers(len(cands)))])
+            if ukind == "below the bounds" and sl / 2 > l1eps + 0.03:
+                Lbad = sl / 2
+            if Lbad is None:
+                ukind = "beyond the bounds"; Lbad = su + l1eps + float(dyadic(urq, 0.25, 1, 2))
+            two = bool(urq.integers(2))
+            if two:
+                first = bool(urq.integers(2))
+                Bu = np.array([b0, b0]); L1u = np.array([Lbad, sx] if first else [sx, Lbad]); bsu = [1, 2, "full"][int(urq.integers(3))]
+                L1g = L1u.tolist() if urq.integers(3) == 0 else L1u
+            else:
+                Bu = b0[None]; L1u = np.array([Lbad]); bsu = 1
+                L1g = float(Lbad) if urq.integers(2) else L1u
+            R.count("unattainable L1 request:%s" % ukind)
+            R.count("unattainable L1 request:%s" % ("alone" if not two else "in one call with an attainable request, batch_size=%s" % bsu))
+            bkw_ = {} if bsu == 1 else dict(batch_size=bsu)
+            if via == "estimator":
+                if stE != "ok":
+                    stu, outu = stE, outE
+                else:
+                    kw = dict(Epsilon=Eps_given) if route == "argument" else {}
+                    stu, outu = call(est.minimize_variance, Bu, l2_eps=l2u, L1=L1g, l1_eps=l1eps, **bkw_, **kw)
+            else:
+                ea = "heteroscedastic" if route == "string" else Eps_given
+                stu, outu = call(lsq_linear_minimize, A_given, Bu, ea, lb=lb, ub=ub, W=w, K=K, baseline=base, l2_eps=l2u, L1=L1g, l1_eps=l1eps, return_pred=True, **bkw_)
+            cu = dict(k=ukey, target="inside", nf=nf, ns=ns, A=A, K=K, K_kind=kk, baseline=base, baseline_kind=bk, lb=lb, ub=ub, w=w, B=Bu, eps_kind=ek,
+                      Epsilon=Eps, eps_route=route, l2_eps=l2u, L1=L1u, l1_eps=l1eps, via=via, call_index=len(targets), earlier_calls=keys,
+                      unattainable=dict(kind=ukind, request=Lbad, total_dictated_by_the_target=sx, sum_lb=sl, sum_ub=su, batch_size=bsu))
+            if fd is not None:
+                cu["registered_on_two_grids"] = fd_pub
+            R.case(cu, (ukey,), sample=False)
+            if stu != "ok":
+                R.count("unattainable L1 request:refused (%s)" % stu)
+            else:
+                R.count("unattainable L1 request:returned")
+                try:
+                    Xu = np.asarray(outu[0], dtype=float).reshape(len(Bu), ns)
+                except Exception as e_:  # noqa: BLE001
+                    Xu = None
+                    R.failB(dict(cu, impl=str(outu)[:200]), "answer to an unattainable L1 request is not an array of intensities: %s" % e_, "C09:unattainable-L1:shape")
+                if Xu is not None:
+                    if np.any(Xu < lb - 1e-6 * (ub - lb)) or np.any(Xu > ub + 1e-6 * (ub - lb)):
+                        R.failB(dict(cu, impl=Xu), "intensities violate the bounds", "C09:unattainable-L1:bounds")
+                    tot = Xu.sum(axis=1)
+                    if np.any(np.abs(tot - L1u) > l1eps * 1.01 + 1e-7):
+                        R.failB(dict(cu, impl=Xu, totals=tot), "returned intensities have total intensity %s, requested %s +- %g (a request that cannot be met with the required "
+                                "fit quality may be refused, not ignored)" % (tot.tolist(), L1u.tolist(), l1eps), "C09:unattainable-L1:l1-window")
         if not batched or not any(R.want(k) for k in bkeys):
             continue
         # ---- the batched call
